@@ -1,7 +1,7 @@
 (* Correspondence and specification check for the generic engine (C04, C09, C19, C03): recorded histories of bab::solve on
    synthetic subproblem trees, driven through the scheduler shim, are replayed through EngExec.exec; the implementation's
    result, statistics and outcome are compared with the final model state and with an exhaustive evaluation of the tree. *)
-From Coq Require Import List ZArith Bool Arith NArith.
+From Coq Require Import List ZArith Bool Arith NArith FMapPositive.
 Require Import EngP2 EngExec.
 Import ListNotations.
 Open Scope nat_scope.
@@ -20,16 +20,18 @@ Definition tree_case := (list ptnode * nat * list (pev nat) * option (nat * Z) *
 Definition smin : Z := 0.
 Definition smax : Z := 4294967295.
 
-Definition tf (tab : list ptnode) (n : nat) : nres nat nat :=
-  match nth n tab TNo with
-  | TNo => NoSol nat nat | TInf cs s => Infeas nat nat cs s | TFeas s => Feas nat nat n s | TPanic => PanicR nat nat end.
+(* node ids are unary numbers in the case files; the replay runs on binary ids (N) so that huge trees (thousands of pending subproblems)
+   stay cheap: the model EngExec.exec is generic in the type of subproblems *)
+Definition tf (tab : list ptnode) (n : N) : nres N N :=
+  match nth (N.to_nat n) tab TNo with
+  | TNo => NoSol N N | TInf cs s => Infeas N N (map N.of_nat cs) s | TFeas s => Feas N N n s | TPanic => PanicR N N end.
 
-Definition to_ev (e : pev nat) : ev nat :=
+Definition to_ev (e : pev nat) : ev N :=
   match e with
-  | PAcq i => EAcq nat i | PPopSolve i n ps => EPopSolve nat i n ps | PPopBound i n ps => EPopBound nat i n ps
-  | PExitYes i => EExitYes nat i | PExitNo i => EExitNo nat i | PEmptyWait i => EEmptyWait nat i | PEmptyDone i => EEmptyDone nat i
-  | PFinNo i => EFinNo nat i | PFinFeas i s nb => EFinFeas nat i s nb | PFinInf i s cs => EFinInf nat i s cs
-  | PFinPanic i => EFinPanic nat i | PWake i => EWake nat i end.
+  | PAcq i => EAcq N i | PPopSolve i n ps => EPopSolve N i (N.of_nat n) ps | PPopBound i n ps => EPopBound N i (N.of_nat n) ps
+  | PExitYes i => EExitYes N i | PExitNo i => EExitNo N i | PEmptyWait i => EEmptyWait N i | PEmptyDone i => EEmptyDone N i
+  | PFinNo i => EFinNo N i | PFinFeas i s nb => EFinFeas N i s nb | PFinInf i s cs => EFinInf N i s (map N.of_nat cs)
+  | PFinPanic i => EFinPanic N i | PWake i => EWake N i end.
 
 (* the subproblems of the harness are ordered like caobab's BABNode: by their DEPTH in the tree only (different nodes of one layer compare
    equal).  Parents have smaller ids than their children, so one pass fills the depth table. *)
@@ -39,17 +41,20 @@ Definition depths (tab : list ptnode) : list nat :=
   fold_left (fun dep i => match nth i tab TNo with
                           | TInf cs _ => fold_left (fun d c => set_nth d c (S (nth i dep 0))) cs dep
                           | _ => dep end) (seq 0 (length tab)) (repeat 0 (length tab)).
-Definition depth_cmp (dep : list nat) (a b : nat) : comparison := Nat.compare (nth a dep 0) (nth b dep 0).
+Definition dmap_of (dep : list nat) : PositiveMap.t nat :=
+  fold_left (fun m (id : nat * nat) => PositiveMap.add (N.succ_pos (N.of_nat (fst id))) (snd id) m) (combine (seq 0 (length dep)) dep) (PositiveMap.empty nat).
+Definition depth_of (m : PositiveMap.t nat) (n : N) : nat := match PositiveMap.find (N.succ_pos n) m with Some d => d | None => 0 end.
+Definition depth_cmp (m : PositiveMap.t nat) (a b : N) : comparison := Nat.compare (depth_of m a) (depth_of m b).
 
 (* replay with the heap-order conformance of every pop *)
-Fixpoint replay_c (tab : list ptnode) (dep : list nat) (st : state nat nat) (evs : list (pev nat)) (pos : nat) (maxok : bool) : (state nat nat + nat) * bool :=
+Fixpoint replay_c (tab : list ptnode) (dep : PositiveMap.t nat) (st : state N N) (evs : list (pev nat)) (pos : nat) (maxok : bool) : (state N N + nat) * bool :=
   match evs with
   | [] => (inl st, maxok)
   | e :: t =>
     let mo := match e with
-              | PPopSolve _ n ps | PPopBound _ n ps => pop_is_max nat nat (depth_cmp dep) st n ps
+              | PPopSolve _ n ps | PPopBound _ n ps => pop_is_max N N (depth_cmp dep) st (N.of_nat n) ps
               | _ => true end in
-    match exec nat nat (tf tab) Nat.eqb st (to_ev e) with
+    match exec N N (tf tab) N.eqb st (to_ev e) with
     | Some st' => replay_c tab dep st' t (S pos) (maxok && mo)
     | None => (inr pos, maxok)
     end
@@ -94,29 +99,29 @@ Definition outcome_okb (outcome : nat) (failed_some : bool) : bool :=
 Definition check_tree (c : tree_case) : N :=
   let '(tab, k, evs, res, found_flag, outcome, stats) := c in
   let fuel := S (length tab) in
-  let '(fin, maxok) := replay_c tab (depths tab) (init nat nat 0 smin smax k) evs 0 true in
+  let '(fin, maxok) := replay_c tab (dmap_of (depths tab)) (init N N 0%N smin smax k) evs 0 true in
   let cls := consistent tab fuel 0 && negb (has_panic tab fuel 0) in
   let feas := feas_below tab fuel 0 in
   let opt := zmax_list (map snd feas) in
   match fin with
   | inr pos => (if cls then 32 else 0) + (if has_panic tab fuel 0 then 256 else 0) + (if Nat.eqb outcome 0 then 512 else 0) + 2048 * Nof pos
   | inl st =>
-    let stopped := all_stopped nat nat st in
-    let res_ok := match res, best nat nat st with
-                  | Some (x, s), Some x' => Nat.eqb x x' && Z.eqb s (bscore nat nat st)
+    let stopped := all_stopped N N st in
+    let res_ok := match res, best N N st with
+                  | Some (x, s), Some x' => N.eqb (N.of_nat x) x' && Z.eqb s (bscore N N st)
                   | None, None => true | _, _ => false end in
     let stats_ok := match stats with
                     | [ex; no; inf; fea; bnd] =>
-                      N.eqb ex (Nof (n_ex nat nat st)) && N.eqb no (Nof (n_no nat nat st)) && N.eqb inf (Nof (n_inf nat nat st)) &&
-                      N.eqb fea (Nof (n_fea nat nat st)) && N.eqb bnd (Nof (n_bnd nat nat st)) &&
-                      N.eqb ex (no + inf + fea) && N.eqb (Nof (length (generated nat nat st))) (ex + bnd)
+                      N.eqb ex (Nof (n_ex N N st)) && N.eqb no (Nof (n_no N N st)) && N.eqb inf (Nof (n_inf N N st)) &&
+                      N.eqb fea (Nof (n_fea N N st)) && N.eqb bnd (Nof (n_bnd N N st)) &&
+                      N.eqb ex (no + inf + fea) && N.eqb (Nof (length (generated N N st))) (ex + bnd)
                     | _ => false end in
     let c09 := match res, opt with
                | Some (_, s), Some o => Z.eqb s o | None, None => true | _, _ => false end in
     let self_ok := match res with
                    | Some (x, s) => existsb (fun q : nat * Z => Nat.eqb (fst q) x && Z.eqb (snd q) s) feas
                    | None => true end in
-    let failed_some := match failed nat nat st with [] => false | _ => true end in
+    let failed_some := match failed N N st with [] => false | _ => true end in
     let outcome_ok := outcome_okb outcome failed_some in
     (if true then 1 else 0) + (if stopped then 2 else 0) + (if Nat.eqb outcome 0 then (if res_ok then 4 else 0) else 4) +
     (if Nat.eqb outcome 0 then (if stats_ok then 8 else 0) else 8) +
